@@ -92,7 +92,7 @@ def fd_oracle(m, x, el, name, known):
     if np.max(np.abs(dc + np.transpose(dc, (1, 0, 2)))) > 1e-9 * np.max(np.abs(dc)) + noise or np.max(np.abs(np.einsum("iix->ix", dc))) > 0:
         return "derivative coupling antisymmetric with zero diagonal", None
     gaps = np.subtract.outer(E, E)            # E_i - E_j
-    mask = np.abs(gaps) > 1e-6
+    mask = np.abs(gaps) > 1e-9            # the code floors gaps below 1e-10 (exact degeneracies are outside the quantifier)
     for xd in range(nd):
         off = fm[:, :, xd] - gaps * dc[:, :, xd]
         off[np.eye(n, dtype=bool)] = 0.0
@@ -199,6 +199,10 @@ def run(tier, seed):
             gc.append(tup(nat(2), nat(2), bl(False), fls(Eall), flss(Craw), "None", lst([flss(dV[0])]), flss(el._reference),
                           lst([fls(el._force[:, 0])]), lst([flss(el._derivative_coupling[:, :, 0])]), lst([flss(el.force_matrix()[:, :, 0])])))
             gmeta.append(dict(model="user-defined near-degenerate 2x2", c=c, x=xv, gap=float(Eall[1] - Eall[0])))
+            gap_ = float(Eall[1] - Eall[0]); fm_ = el.force_matrix()[0, 1, 0]; dc_ = el._derivative_coupling[0, 1, 0]
+            res.count("near-degenerate-gap-cases")
+            if gap_ >= 1e-9 and abs(fm_ - (Eall[0] - Eall[1]) * dc_) > 1e-8 * max(abs(fm_), 1e-300):
+                bad.append(dict(failed="off-diagonal force matrix equals (E_i - E_j) d_ij (near-degenerate pair, gap %.3e: F_01=%r, (E_0-E_1) d_01=%r)" % (gap_, float(fm_), float((Eall[0] - Eall[1]) * dc_)), case=gmeta[-1]))
             res.count("gap-floor/" + ("floored" if abs(Eall[1] - Eall[0]) < 1e-10 else "regular"))
             res.case(("tiny", c, xv), True)
     # harmonic model: force = -grad E, save/load round trip
